@@ -160,7 +160,7 @@ def next_alternative(ctx, res):
         res.instance(f"case {k}", facts.loc(facts.func("validate_trait_complex")),
                      rows=len(rows), try_next_rows=nxt)
         bad = [r for r in rows if r[2] == ("REJECT-ALL",)]
-        res.oblige(not bad, f"validate_trait_complex[case {k}]:reject-all",
+        res.oblige(not bad, f"validate_trait_complex[case{k}]:reject-all",
                    f"{CREL}:{bad[0][3][-1] if bad and bad[0][3] else 0}",
                    f"case {k} of the compound validator can reject the value "
                    f"for the whole compound trait (jumps to `error`) instead "
@@ -168,6 +168,6 @@ def next_alternative(ctx, res):
                    f"a later alternative is refused",
                    [f"{CREL}:{l}" for l in dict.fromkeys(bad[0][3]) if l]
                    if bad else None)
-        res.oblige(nxt > 0, f"validate_trait_complex[case {k}]:has-next",
+        res.oblige(nxt > 0, f"validate_trait_complex[case{k}]:has-next",
                    CREL, f"case {k} never falls through to the next "
                    f"alternative")
